@@ -9,7 +9,7 @@ CONSTANTS
   Bug = "none"
   MaxConnect = 6
   MaxCrash = 3
-  MaxOther = 2
+  MaxOther = 1
   OtherTables <- OtherTabs
   MaxEnv = 3
 CHECK_DEADLOCK FALSE
